@@ -888,6 +888,70 @@ def _mutable_culture_histories(arg):
 
 
 
+# ---- week-year rules: different rule objects asked one directly after the other ----------------------------------------
+
+def _weekyear_cross_rule_histories(depth):
+    """rule objects that agree in some parameters (same min-days / first day, regular vs BCL-style irregular weeks; equal but
+    separately built rules), asked the same question about the same calendar and week-year one directly after the other: every
+    sequence up to the depth; each answer must equal the answer given right after an unrelated question (a 'flush')"""
+    from pyoda_time import IsoDayOfWeek
+    from pyoda_time.calendars import CalendarWeekRule, WeekYearRules
+    acc = Acc()
+    rules = [("iso", WeekYearRules.iso),
+             ("min4-monday", WeekYearRules.for_min_days_in_first_week(4, IsoDayOfWeek.MONDAY)),
+             ("bcl-four-day-monday", WeekYearRules.from_calendar_week_rule(CalendarWeekRule.FIRST_FOUR_DAY_WEEK, IsoDayOfWeek.MONDAY)),
+             ("min1-sunday", WeekYearRules.for_min_days_in_first_week(1, IsoDayOfWeek.SUNDAY)),
+             ("bcl-first-day-sunday", WeekYearRules.from_calendar_week_rule(CalendarWeekRule.FIRST_DAY, IsoDayOfWeek.SUNDAY)),
+             ("bcl-first-day-monday", WeekYearRules.from_calendar_week_rule(CalendarWeekRule.FIRST_DAY, IsoDayOfWeek.MONDAY))]
+    cals = [CalendarSystem.iso, CalendarSystem.coptic]
+    qs = []
+    for rn, r in rules:
+        for cal in cals:
+            for y in ((2024, 2020) if cal is CalendarSystem.iso else (1740,)):
+                last = LocalDate(y, cal.get_months_in_year(y), cal.get_days_in_month(y, cal.get_months_in_year(y)), cal).plus_days(-1)
+                qs.append(("%s.weeks_in(%d,%s)" % (rn, y, cal.id), lambda r=r, y=y, cal=cal: r.get_weeks_in_week_year(y, cal)))
+                qs.append(("%s.week_year+week(%s)" % (rn, last), lambda r=r, last=last: (r.get_week_year(last), r.get_week_of_week_year(last))))
+                qs.append(("%s.get_local_date(%d,1,MONDAY,%s)" % (rn, y, cal.id),
+                           lambda r=r, y=y, cal=cal: impl.days_of(r.get_local_date(y, 1, IsoDayOfWeek.MONDAY, cal))))
+    flush_rule = WeekYearRules.for_min_days_in_first_week(7, IsoDayOfWeek.WEDNESDAY)
+
+    def flush():
+        flush_rule.get_weeks_in_week_year(1000, CalendarSystem.julian)
+        flush_rule.get_week_year(LocalDate(1001, 6, 1, CalendarSystem.julian))
+
+    def ask(fn):
+        try:
+            return ("ok", fn())
+        except Exception as e:  # noqa: BLE001
+            if exc_origin(e) == "harness":
+                raise
+            return ("raises", type(e).__name__)
+    fresh = []
+    for _, fn in qs:
+        flush()
+        fresh.append(ask(fn))
+    n = 0
+    for d in range(2, depth + 1):
+        for hist in itertools.product(range(len(qs)), repeat=d):
+            if len(set(hist)) == 1:
+                continue
+            flush()
+            n += 1
+            acc.count(evaluations=1, transitions=d)
+            for i, k in enumerate(hist):
+                got = ask(qs[k][1])
+                if got != fresh[k]:
+                    acc.violation("C13/weekyear-rules/depends-on-previous-question/%s" % qs[k][0].split("(")[0],
+                                  "after %r, %s answers %r; after an unrelated question it answers %r" % ([qs[j][0] for j in hist[:i]], qs[k][0], got, fresh[k]),
+                                  {"kind": "weekyear-cross-rule", "history": [qs[j][0] for j in hist[:i + 1]]})
+                    break
+    acc.count(states=n, nontrivial=n)
+    acc.outcome("weekyear-cross-rule:%d questions" % len(qs))
+    acc.sample({"weekyear_cross_rule_questions": [q[0] for q in qs][:10], "depth": depth})
+    return acc
+
+
+
 def _calendar_routes():
     routes = []
     for cid in CalendarSystem.ids:
@@ -1703,6 +1767,7 @@ def run(ctx):
     ctx.merge_part("hist_provider_custom_source", _provider_histories_custom(3 if tier == "quick" else 4))
     ctx.merge_part("hist_fixed_zones", _fixed_zone_histories(2 if tier == "quick" else 3))
     ctx.merge_part("hist_culture_names", _culture_name_histories(2 if tier == "quick" else 3))
+    ctx.merge_part("hist_weekyear_cross_rule", _weekyear_cross_rule_histories(2 if tier == "quick" else 3))
     g_, s_ = _mutable_culture_ops()
     mjobs = [(k, 3, cn) for cn in (("en-US",) if tier == "quick" else ("en-US", "fr-FR", "de-DE")) for k in range(len(g_) + len(s_))]
     for acc in pmap(_mutable_culture_histories, mjobs):
@@ -1722,9 +1787,9 @@ def run(ctx):
     mark("schedules")
     # first use of lazily initialised state, each execution in a fresh interpreter (0.6 s each): single-preemption space
     small = ["offset-patterns", "instant-repr", "iso-patterns", "calendar-hebrew"]
-    fu = [(n, "line", 1, 60) for n in small[:2]]
+    fu = [(n, "line", 1, 60) for n in small[:2]] + [("date-adjusters", "line", 2, 120)]
     if tier != "quick":
-        fu = [(n, "line", 1, 2500) for n in small + ["calendar-islamic", "weekyear-rules", "tzdb-provider", "fixed-zones"]]
+        fu = [(n, "line", 1, 2500) for n in small + ["calendar-islamic", "weekyear-rules", "tzdb-provider", "fixed-zones"]] + [("date-adjusters", "line", 2, 2500)]
     for acc in pmap(_first_use_shard, fu, procs=4):
         ctx.merge_part("first_use_fresh_interpreter", acc)
     mark("first_use")
